@@ -152,9 +152,10 @@ def rand_spec(rng, opts=None):
         group_module = [rng.randrange(nmod) for _ in groups]
     rels = []
     pc = opts.get("p_conflict", 0.4)
-    if rng.random() < pc and ntr >= 2:
-        a, b = rng.sample(range(ntr), 2)
-        rels.append(["conflict", ["t", a], ["t", b], rng.choice(["U", "L", "R"])])
+    for _ in range(opts.get("n_tconflict", 1)):
+        if rng.random() < pc and ntr >= 2:
+            a, b = rng.sample(range(ntr), 2)
+            rels.append(["conflict", ["t", a], ["t", b], rng.choice(["U", "L", "R"])])
     for _ in range(opts.get("n_mconflict", 1)):
         if rng.random() < opts.get("p_mconflict", 0.3) and len(methods) >= 2:
             a, b = rng.sample(range(len(methods)), 2)
